@@ -442,6 +442,64 @@ def cluster_case(chk, k, case):
     return judge("cluster-%s-%d" % (name, k), acc, rc, out, se, cmd, text, {"option_cluster_runs": 1})
 
 
+USER_TEXT_HEADER = ("struct Foo { int a; struct { int x; }; };\nunion Bar { int i; float f; };\nenum Color { RED, GREEN };\nint fn_plain(int);\n"
+                    "extern int g_var;\n#define M 1\n")
+USER_TEXTS = ["with space", "a=b", "x::y", "quote'\"s", "#[", "(", ")", "uni\u00e9\u4e2d", "1abc", "", "'", "\"", "r#", "/*", "//", "\\", "#[doc = \"x\"]", "0x", "'a", "b'x",
+              "#[repr(C)] #[", "Clone, 1", "fn", "self", "a-b"]
+USER_TEXT_OPTS = [
+    ("raw-line", lambda t: ["--raw-line", t]), ("module-raw-line", lambda t: ["--enable-cxx-namespaces", "--module-raw-line", "root", t]),
+    ("attribute-custom", lambda t: ["--with-attribute-custom", "Foo=" + t]), ("attribute-custom-struct", lambda t: ["--with-attribute-custom-struct", ".*=" + t]),
+    ("attribute-custom-enum", lambda t: ["--default-enum-style", "rust", "--with-attribute-custom-enum", ".*=" + t]),
+    ("attribute-custom-union", lambda t: ["--with-attribute-custom-union", ".*=" + t]), ("derive-custom", lambda t: ["--with-derive-custom", "Foo=" + t]),
+    ("derive-custom-enum", lambda t: ["--default-enum-style", "rust", "--with-derive-custom-enum", ".*=" + t]),
+    ("field-attr", lambda t: ["--field-attr", "Foo::a=" + t]), ("extern-fn-block-attrs", lambda t: ["--extern-fn-block-attrs", t]),
+    ("anon-fields-prefix", lambda t: ["--anon-fields-prefix", t]), ("ctypes-prefix", lambda t: ["--ctypes-prefix", t]),
+    ("dynamic-loading", lambda t: ["--dynamic-loading", t]), ("prefix-link-name", lambda t: ["--prefix-link-name", t]),
+    ("must-use-type", lambda t: ["--must-use-type", t]), ("blocklist-type", lambda t: ["--blocklist-type", t]),
+]
+USER_TEXT_SITES = {"anon-fields-prefix", "dynamic-loading", "ctypes-prefix", "derive-custom", "derive-custom-enum", "extern-fn-block-attrs", "module-raw-line"}
+
+
+def user_text_cases(chk):
+    cases = []
+    for oname, mk in USER_TEXT_OPTS:
+        for ti, t in enumerate(USER_TEXTS):
+            for fm in ("none", "prettyplease", "rustfmt"):
+                cases.append((oname, mk, ti, t, fm))
+    if chk.quick():
+        # every (option, formatter) pair and every (option, text) pair at least once per three runs; all of them in the thorough tier
+        r = chk.rng("usertext")
+        off = r.randrange(3)
+        cases = [c for k, c in enumerate(cases) if (k + c[2] + off) % 3 == 0]
+    return cases
+
+
+def user_text_case(chk, k, case):
+    """Text the USER supplies for attributes, derives, raw lines, prefixes and names, well-formed or not, under each formatter: the run ends
+    with bindings or with an error exit, never with a panic (a formatter that cannot parse the text must fall back to the unformatted tokens)."""
+    oname, mk, ti, t, fm = case
+    d = chk.dir("ut%d" % (k % 32))
+    p = write(os.path.join(d, "ut%d.h" % k), USER_TEXT_HEADER)
+    flags = ["--formatter", fm] + mk(t)
+    rc, out, se, cmd, info = run_bindgen(p, flags, [], d, "ut%d" % k)
+    name = "usertext-%s-%d-%s" % (oname, ti, fm)
+    obs = {"user_text_runs": 1, "user_text_option." + oname: 1, "user_text_formatter." + fm: 1}
+    files = {"input.h": USER_TEXT_HEADER, "cmd.txt": " ".join(cmd), "stderr.txt": se[-4000:], "text.txt": t}
+    if rc is None:
+        return Verdict(INCONCLUSIVE, name, "wall-clock watchdog", obs=obs)
+    c = crashed(rc, se)
+    if c:
+        sig = panic_signature(se)
+        if oname in USER_TEXT_SITES and sig and re.search(r"LexError|is not a valid Ident|Ident is not allowed to be empty|Ident cannot be a number|"
+                                                               r"expected|Error parsing|at least one trait is required|to be valid", c):
+            sig = "c12.user-text-panics:" + oname
+        return Verdict(VIOLATED, name, "option text %r: %s" % (t, c), files=files, obs=obs, signature=sig)
+    if rc == 0 and not (os.path.exists(out) and os.path.getsize(out) > 0):
+        return Verdict(VIOLATED, name, "exit 0 but no bindings written", files=files, obs=obs)
+    obs["user_text_exit.%s" % ("ok" if rc == 0 else "error")] = 1
+    return Verdict(HELD, name, obs=obs, nontrivial=True, key=name)
+
+
 def run(chk):
     ents = corpus.entries()
     donors = [open(e[0], errors="replace").read() for e in ents[::23]]
@@ -450,6 +508,7 @@ def run(chk):
     chk.map(lambda cj: snippet_case(chk, cj[0], cj[1]), [(c, j) for c in cases for j in range(chk.pick(3, 8))], budget_s=chk.pick(200, 900))
     chk.map(lambda c: deep_case(chk, c), deep_cases(), budget_s=900)
     chk.map(lambda kc: cluster_case(chk, kc[0], kc[1]), list(enumerate(cluster_cases())), budget_s=600)
+    chk.map(lambda kc: user_text_case(chk, kc[0], kc[1]), list(enumerate(user_text_cases(chk))), budget_s=600)
     chk.map(lambda i: gen_program_case(chk, i), range(chk.pick(300, 4000)), budget_s=chk.pick(150, 1200))
     d, good, fcases = fs_fault_cases(chk)
     chk.map(lambda c: fs_case(chk, d, c), fcases)
